@@ -174,12 +174,7 @@ class World:
             path = rel.split("/")
             if path[0].startswith(".tmp."):
                 path[0] = "tmp%d" % (stamps.index(path[0]) + 1) if path[0] in stamps else path[0]
-                e = self._abstract(path, kind, val if kind != "symlink" else "", ex)
-                if kind == "symlink":
-                    e["val"] = "raw:" + val
-            else:
-                e = self._abstract(path, kind, val, ex)
-            res.append(e)
+            res.append(self._abstract(path, kind, val, ex))
         return sorted(res, key=lambda e: e["path"])
 
     def upload(self, full, overwrite):
@@ -269,12 +264,15 @@ def ents_of(tree):
     return [{"id": e["id"], "path": list(e["path"]), "kind": e["kind"], "val": e["val"], "exec": e["exec"]} for e in tree]
 
 
-def change_class(frm, to, path):
-    """How the entry the tip tree has at `path` changed since the uploaded tree (no names; the level only for symlinks)."""
+def change_class(frm, to, path, mode):
+    """How the entry the tip tree has at `path` changed since the uploaded tree (no names; the level only for symlinks).
+    A full upload does not look at the uploaded tree: only the entry's kind matters there."""
     e = next((x for x in to if x["path"] == list(path)), None)
     if e is None:
         return "path-not-in-tree"
     kind = e["kind"] + (",below-top" if e["kind"] == "symlink" and len(path) > 1 else "")
+    if mode == "full":
+        return kind
     o = next((x for x in frm if x["id"] == e["id"]), None)
     if o is None:
         return "added(%s)" % kind
@@ -289,7 +287,7 @@ def change_class(frm, to, path):
     elif o["path"] != e["path"]:
         flags.append("moved-with-parent")
     if o["kind"] != e["kind"]:
-        flags.append("kind-change")
+        return "+".join(flags + ["kind-change"])
     else:
         if o["val"] != e["val"]:
             flags.append("retarget" if e["kind"] == "symlink" else "content")
@@ -517,7 +515,7 @@ def run(ctx):
                               meta["mode"], name, msg, phase, meta["rep"]["model_unsafe"]), meta["rep"])
         elif "equal" in failed:
             d = differs(r["tree"], r["remote"])
-            for cl in sorted({change_class(meta["frm"], meta["to"], list(p)) + ":" + what for p, what in d.items()}):
+            for cl in sorted({change_class(meta["frm"], meta["to"], list(p), meta["mode"]) + ":" + what for p, what in d.items()}):
                 ctx.violation("remote-differs:%s:%s%s" % (meta["mode"], cl, tag),
                               "after a successful %s upload the remote directory differs from the tree at %s; the model's reasons: %s" % (
                                   meta["mode"], {"/".join(p): v for p, v in d.items()}, meta["rep"]["model_unsafe"]), meta["rep"])
